@@ -4,7 +4,7 @@
    (NaN incomparable, -0 == +0).  Softmax [sm] and the random target are oracles: the theorems
    hold for EVERY softmax answer satisfying the stated structural hypotheses and EVERY target. *)
 From RV Require Import Prelude.
-From Filters Require Import Floats ModelFilters ModelSamplers Samplers_proofs.
+From Filters Require Import Floats ModelFilters ModelSamplers Samplers_proofs Floats_proofs.
 Open Scope N_scope.
 
 (* (1) ArgMax returns the id of a candidate whose score no candidate strictly exceeds
@@ -59,6 +59,17 @@ Theorem C33_multinomial_loop_valid : forall add,
   | None => forall p, In p probs -> fgt p 0 = false
   end.
 Proof. exact multinomial_fixed_valid. Qed.
+
+(* (3'') the same for the model's own addition [fadd] (Flocq binary32 `Bplus`, round to nearest
+         even): both arithmetic hypotheses are proved, none is left *)
+Theorem C33_multinomial_valid_binary32 : forall sm target l,
+  l <> [] -> length (sm (map e_sc l)) = length l ->
+  flt target 0 = false -> Forall ProbWf (sm (map e_sc l)) ->
+  exists i id, sample_multi fadd true sm target l = SId id /\
+               nth_error (map e_id l) i = Some id /\
+               (fgt (nth i (sm (map e_sc l)) 0) 0 = true \/
+                forall p, In p (sm (map e_sc l)) -> fgt p 0 = false).
+Proof. exact (sample_multi_fixed_valid fadd fadd_range fadd_zero). Qed.
 
 Theorem C33_multinomial_empty_panics : forall add fx sm target,
   sample_multi add fx sm target [] = SPanic.
